@@ -13,6 +13,15 @@ CLAIMED = {
         "technique": "machine-checked proof in Rocq (Coq 8.16) over an executable Gallina model + differential correspondence check and table regeneration",
         "design": "DESIGN.md §7 C01",
     },
+    "C04": {
+        "text": "Rocq theorems C04_spellings_read_back (every raw text related to a string s by the independent spelling relation Spells -- quoted runs of either kind at "
+                "the start or after whitespace, bare runs, literal whitespace, with every escape family -- is unquoted to exactly s), C04_every_string_spellable and "
+                "C04_canonical_read_back (every string has a double- and a single-quoted spelling that reads back); unbounded in length, all code points; full. "
+                "Tied to /repo by the regenerated escape table, differential runs (documented and malformed streams) and a direct oracle on unquote_value, lookup_last and the converted --health-cmd argument.",
+        "note": "Trusted: Coq kernel; Spec/Spelling.v as the meaning of 'documented quoting'; extraction; driver; the Python generator that mirrors Spells.",
+        "technique": "machine-checked proof in Rocq (Coq 8.16): induction over the spelling derivation with a machine-state invariant + differential correspondence check",
+        "design": "DESIGN.md §7 C04",
+    },
     "C05": {
         "text": "Rocq theorems C05_args_equiv / C05_strv_equiv: for every raw value on which the reference model of systemd's extract_first_word "
                 "(UNQUOTE|CUNESCAPE|RELAX resp. UNQUOTE|RETAIN_ESCAPE) succeeds, the model of SplitWord resp. SplitStrv collects exactly systemd's word list "
